@@ -459,7 +459,10 @@ def oracle_part(ops, impl):
     fails = []
     for i, (op, line) in enumerate(zip(ops, impl)):
         w = op.split()
-        if w[0] != 'part' or line == 'bad-op' or len(w) < 3:
+        if w[0] != 'part' or len(w) < 3:
+            continue
+        if line == 'bad-op':
+            fails.append((i, 'the harness rejected a generated op'))
             continue
         np = int(w[1])
         data = bytes.fromhex(w[2]) if w[2] != '-' else b''
@@ -621,7 +624,8 @@ def hazard(data, w):
 # ------------------------------------------------------------------ chunk crossing
 def big_params(rng, np):
     B = rng.randint(4, 7)
-    ncell = np * CHUNK + rng.randint(2, 40) if rng.random() < 0.5 else CHUNK + rng.randint(2, 40)
+    # two or three trips of the read loop (the harness accepts up to 3000000 records)
+    ncell = 2 * CHUNK + rng.randint(2, 40) if rng.random() < 0.5 else CHUNK + rng.randint(2, 40)
     chunk = max(CHUNK, ncell // np)
     marks = {0, 1, ncell - 1}
     for c in range(chunk, ncell, chunk):
@@ -661,7 +665,10 @@ def oracle_chunk(ops, impl):
     fails = []
     for i, (op, line) in enumerate(zip(ops, impl)):
         w = op.split()
-        if w[0] != 'big' or line == 'bad-op':
+        if w[0] != 'big':
+            continue
+        if line == 'bad-op':
+            fails.append((i, 'the harness rejected a generated op'))
             continue
         np, ver, B, ncell, seed = (int(x) for x in w[1:6])
         pos = [int(x) for x in w[6:]]
